@@ -123,6 +123,7 @@ var mutantCatalogue = map[string][]mutant{
 		{Name: "nop costs zero cycles", File: "risc/risc.go", Old: "\tcase Nop:\n\t\treturn 1", New: "\tcase Nop:\n\t\treturn 0"},
 	},
 	"C09": {
+		{Name: "final drain ignores a busy write unit", File: "proc/mvp8-0/cpu.go", Old: "\t\t\tif !wu.isEmpty() || !m.writeBus.IsEmpty() {\n\t\t\t\tempty = false\n\t\t\t}\n", New: "\t\t\tif !wu.isEmpty() || !m.writeBus.IsEmpty() {\n\t\t\t}\n"},
 		{Name: "undispatched instruction dropped", File: "proc/mvp7-0/cu.go", Old: "\t\t\tu.pendings.Push(runner)\n", New: ""},
 		{Name: "ret drain forgets the write bus", File: "proc/mvp6-3/cpu.go", Old: "for !m.areExecuteUnitsEmpty() || !m.areWriteUnitsEmpty() || !m.writeBus.IsEmpty() {", New: "for !m.areExecuteUnitsEmpty() || !m.areWriteUnitsEmpty() {"},
 		{Name: "ret drain forgets the execute units", File: "proc/mvp6-1/cpu.go", Old: "for !m.areExecuteUnitsEmpty() || !m.areWriteUnitsEmpty() || !m.writeBus.IsEmpty() {", New: "for !m.areWriteUnitsEmpty() || !m.writeBus.IsEmpty() {"},
@@ -132,6 +133,8 @@ var mutantCatalogue = map[string][]mutant{
 		{Name: "queue dispatch forgets the branch flag", File: "proc/mvp7-1/cu.go", Old: "\t\t\tif runner.Runner.InstructionType().IsConditionalBranch() {\n\t\t\t\tu.pendingConditionalBranch = true\n\t\t\t}\n\t\t} else {\n\t\t\tu.skippedInCurrentCycle = append(u.skippedInCurrentCycle, runner)", New: "\t\t} else {\n\t\t\tu.skippedInCurrentCycle = append(u.skippedInCurrentCycle, runner)"},
 	},
 	"C03": {
+		{Name: "flush keeps the pending queue", File: "proc/mvp7-0/cu.go", Old: "func (u *controlUnit) flush() {\n\tu.pendings = comp.NewQueue[risc.InstructionRunnerPc](pendingLength)\n", New: "func (u *controlUnit) flush() {\n"},
+		{Name: "flush drain ends while a unit is busy", File: "proc/mvp6-2/cpu.go", Old: "\t\t\t\t\t\tisEmpty = false\n", New: ""},
 		{Name: "fetch redirect without a new epoch", File: "proc/mvp6-1/fu.go", Old: "func (u *fetchUnit) reset(pc int32, cleanPending bool) {\n\tu.ctx.IncSequenceID()\n", New: "func (u *fetchUnit) reset(pc int32, cleanPending bool) {\n"},
 		{Name: "flush restarts one instruction later", File: "proc/mvp6-1/cpu.go", Old: "\t\t\tm.flush(pc)\n", New: "\t\t\tm.flush(pc + 4)\n"},
 		{Name: "execute unit never arms the check", File: "proc/mvp6-1/eu.go", Old: "\tu.bu.assert(u.runner)\n", New: ""},
@@ -149,6 +152,8 @@ var mutantCatalogue = map[string][]mutant{
 		{Name: "decode does not stall after a jump", File: "proc/mvp6-0/du.go", Old: "\t\t\tu.pendingBranchResolution = true\n", New: ""},
 	},
 	"C04": {
+		{Name: "held-back instruction not recorded", File: "proc/mvp7-1/cu.go", Old: "\t\t\tu.pendings.Push(runner)\n\t\t\tu.skippedInCurrentCycle = append(u.skippedInCurrentCycle, runner)\n", New: "\t\t\tu.pendings.Push(runner)\n"},
+		{Name: "dispatch window never re-created", File: "proc/mvp6-3/cu.go", Old: "func (u *controlUnit) cycle(cycle int) {\n\tu.pushedRunnersInCurrentCycle = make(map[*risc.InstructionRunnerPc]bool)\n", New: "func (u *controlUnit) cycle(cycle int) {\n"},
 		{Name: "renaming on RAW", File: "proc/mvp6-3/cu.go", Old: "\tif hazardTypes[risc.ReadAfterWrite] {\n\t\treturn false\n\t}\n\treturn true", New: "\treturn true"},
 		{Name: "forwarding with two hazards", File: "proc/mvp6-1/cu.go", Old: "if len(hazardTypes) > 1 || !hazardTypes[risc.ReadAfterWrite] || len(hazards) > 1 {", New: "if len(hazardTypes) > 1 || !hazardTypes[risc.ReadAfterWrite] {"},
 		{Name: "scoreboard released before the write", File: "proc/mvp6-1/wu.go", Old: "\t\tr.ctx.WriteRegister(execution.Execution)\n\t\tr.ctx.DeletePendingRegisters(execution.ReadRegisters, execution.WriteRegisters)", New: "\t\tr.ctx.DeletePendingRegisters(execution.ReadRegisters, execution.WriteRegisters)\n\t\tr.ctx.WriteRegister(execution.Execution)"},
